@@ -6,7 +6,8 @@ use crate::replace_char_spec;
 pub open spec fn ser_arg(a: Seq<char>) -> Seq<char> {
     if a.len() == 0 { "\"\""@ }
     else if crate::starts_with_spec(a, "\""@) && crate::ends_with_spec(a, "\""@) { seq!['\\'] + a + seq!['\\'] }
-    else if a.contains(' ') { seq!['"'] + a + seq!['"'] }
+    // any white space inside the value needs quotes to survive the second parse
+    else if crate::has_ws(a) { seq!['"'] + a + seq!['"'] }
     else { a }
 }
 pub open spec fn ser_upto(args: Seq<Seq<char>>, n: int) -> Seq<char> decreases n {
